@@ -213,6 +213,11 @@ pub enum Verdict {
 
 pub trait Stages: Sync {
     fn n_stages(&self) -> u32;
+    /// Normalised panic message for the fingerprint (default: vmc's; a stage whose inputs put their own text into
+    /// the message overrides it).
+    fn norm_panic_msg(&self, _stage: u32, msg: &str) -> String {
+        vmc::normalise_msg(msg)
+    }
     /// The order in which the stages run (default: by index).
     fn order(&self) -> Vec<u32> {
         (0..self.n_stages()).collect()
@@ -334,7 +339,7 @@ fn worker_loop<S: Stages>(st: &S, slot: &Slot, log: &Log, stage: u32, start: u64
                 let overflow = if msg.contains("overflow") && msg.starts_with("attempt to") { " overflow-check=yes" } else { "" };
                 let file = norm_file(&file);
                 let f = Finding {
-                    fingerprint: format!("{} outcome=panic{overflow} msg={} file={}", st.fp_prefix(stage, case), vmc::normalise_msg(&msg), file),
+                    fingerprint: format!("{} outcome=panic{overflow} msg={} file={}", st.fp_prefix(stage, case), st.norm_panic_msg(stage, &msg), file),
                     decoded,
                     expected: "Ok or io::Error".into(),
                     observed: format!("panic: {msg} in {file}"),
@@ -717,7 +722,7 @@ pub fn run_stages<S: Stages>(st: &'static S, workers: usize, dir: &std::path::Pa
                                                             let (decoded, _, payload) = st.describe(stg, cur);
                                                             let msg = unesc(msg);
                                                             extra.push(Finding {
-                                                                fingerprint: format!("{} outcome=panic msg={} file={}", st.fp_prefix(stg, cur), vmc::normalise_msg(&msg), norm_file(&unesc(file))),
+                                                                fingerprint: format!("{} outcome=panic msg={} file={}", st.fp_prefix(stg, cur), st.norm_panic_msg(stg, &msg), norm_file(&unesc(file))),
                                                                 decoded,
                                                                 expected: "Ok or io::Error".into(),
                                                                 observed: format!("panic: {msg}"),
